@@ -27,6 +27,12 @@ pub enum Edit {
     /// current target, or - when the current value names nothing, e.g. "Ninguna" - as the block
     /// the line is in). Builds reference cycles and cross links out of valid names.
     RefRetarget { line: usize, occ: usize, how: String },
+    /// one delimiter of the line lost: `which` = "quote_first" | "quote_last" | "eq" | "paren_open"
+    /// | "paren_close" | "comma" | "semicolon" | "lt" | "gt" (first occurrence unless stated)
+    DelimDropped { line: usize, which: String },
+    /// the file ends right after the first occurrence of a delimiter on the line (inside a quoted
+    /// string, inside a list, after the '=')
+    TruncAtDelim { line: usize, which: String },
     /// the `tok`-th numeric token on `line` is replaced by text
     NumToText { line: usize, tok: usize },
     /// the `tok`-th numeric token on `line` is replaced by an out-of-range value
@@ -79,6 +85,8 @@ impl Edit {
             Edit::RenameQuoted { .. } => "disk.name_renamed",
             Edit::RenameQuotedUnicode { .. } => "disk.name_renamed_nonascii",
             Edit::RefRetarget { .. } => "disk.reference_retargeted",
+            Edit::DelimDropped { .. } => "disk.delimiter_dropped",
+            Edit::TruncAtDelim { .. } => "disk.truncated_at_delimiter",
             Edit::NumToText { .. } => "disk.number_to_text",
             Edit::NumOor { .. } => "disk.number_out_of_range",
             Edit::ByteFlip { .. } => "disk.byte_flip",
@@ -106,6 +114,8 @@ impl Edit {
             | Edit::RenameQuoted { line, .. }
             | Edit::RenameQuotedUnicode { line, .. }
             | Edit::RefRetarget { line, .. }
+            | Edit::DelimDropped { line, .. }
+            | Edit::TruncAtDelim { line, .. }
             | Edit::NumToText { line, .. }
             | Edit::NumOor { line, .. }
             | Edit::ByteFlip { line, .. }
@@ -218,6 +228,32 @@ pub fn scan_tbl_blocks(lines: &[&str]) -> Vec<Block> {
 }
 
 /// Byte ranges of quoted strings ("...") on a line; the range covers the content only.
+pub const DELIMS: &[&str] = &["quote_first", "quote_last", "eq", "paren_open", "paren_close", "comma", "semicolon", "lt", "gt"];
+
+/// Byte position of the delimiter `which` on the line (all of them are ASCII).
+pub fn delim_pos(l: &str, which: &str) -> Option<usize> {
+    match which {
+        "quote_first" => l.find('"'),
+        "quote_last" => {
+            let a = l.find('"')?;
+            let b = l.rfind('"')?;
+            if b > a {
+                Some(b)
+            } else {
+                None
+            }
+        }
+        "eq" => l.find('='),
+        "paren_open" => l.find('('),
+        "paren_close" => l.rfind(')'),
+        "comma" => l.find(','),
+        "semicolon" => l.find(';'),
+        "lt" => l.find('<'),
+        "gt" => l.find('>'),
+        _ => None,
+    }
+}
+
 pub fn quoted_spans(line: &str) -> Vec<(usize, usize)> {
     let mut out = vec![];
     let b = line.as_bytes();
@@ -484,6 +520,21 @@ pub fn apply(text: &str, e: &Edit) -> Option<String> {
                 return None;
             }
             Some(join(&lines[..=*line]))
+        }
+        Edit::DelimDropped { line, which } => {
+            let l = get(*line)?;
+            let pos = delim_pos(l, which)?;
+            let newl = format!("{}{}", &l[..pos], &l[pos + 1..]);
+            let mut v = lines.clone();
+            v[*line] = &newl;
+            Some(join(&v))
+        }
+        Edit::TruncAtDelim { line, which } => {
+            let l = get(*line)?;
+            let pos = delim_pos(l, which)?;
+            let mut v: Vec<&str> = lines[..*line].to_vec();
+            v.push(&l[..=pos]);
+            Some(join(&v))
         }
         Edit::TruncMid { line } => {
             let l = get(*line)?;
@@ -868,6 +919,7 @@ pub fn enumerate_c19(file: &CorpusFile, thorough: bool) -> Vec<Variant> {
         let mut push = |e: Edit| {
             let cell = match &e {
                 Edit::NumOor { val, .. } => format!("{}|{}={}", cellbase, e.kind_name(), val),
+                Edit::DelimDropped { which, .. } | Edit::TruncAtDelim { which, .. } => format!("{}|{}:{}", cellbase, e.kind_name(), which),
                 _ => format!("{}|{}", cellbase, e.kind_name()),
             };
             out.push(Variant { edit: e, cell });
@@ -891,6 +943,14 @@ pub fn enumerate_c19(file: &CorpusFile, thorough: bool) -> Vec<Variant> {
             if !li.is_header && header_of(l).is_none() && li.region != "xml" {
                 for how in ["self", "next"] {
                     push(Edit::RefRetarget { line: i, occ, how: how.to_string() });
+                }
+            }
+        }
+        for which in DELIMS {
+            if delim_pos(l, which).is_some() {
+                push(Edit::DelimDropped { line: i, which: which.to_string() });
+                if i + 1 < lines.len() || delim_pos(l, which).map(|p| p + 1 < l.len()).unwrap_or(false) {
+                    push(Edit::TruncAtDelim { line: i, which: which.to_string() });
                 }
             }
         }
